@@ -202,6 +202,7 @@ def run_shard(shard, acc, forced_trace=None):
             acc.count("pool:" + j["k"] + ":" + ("ok" if base.get("ok") else "raises"))
             if base.get("ok") and j["k"] == "decompile_exps" and norm.is_fallback(base["text"]):
                 acc.count("pool:decompile_exps:fallback")
+        hist.KCLOCK.install()  # (after the pool was built and the fresh processes have answered: only the histories see the skewed clocks)
         runner = Runner(acc, pool, gold, {"pool": {"seed": shard["seed"], "n": shard["pool"]}})
         if forced_trace is not None:
             runner.run_history(forced_trace)
@@ -214,6 +215,9 @@ def run_shard(shard, acc, forced_trace=None):
             hist.KCACHE.scan()
         for k, v in hist.KCACHE.counts.items():
             acc.count("K-CACHE:" + k, v)
+        acc.count("K-CLOCK:clock_readings_by_repository_code", hist.KCLOCK.reads)
+        for k, v in hist.KCLOCK.sites.items():
+            acc.count("K-CLOCK:site:" + k, v)
         acc.sample({"history": steps[:6], "pool_classes": sorted({j["cls"] for j in pool})})
     finally:
         shutil.rmtree(scratch, ignore_errors=True)
@@ -231,6 +235,9 @@ def summarize(agg, tier):
         "pool": {k[5:]: v for k, v in c.items() if k.startswith("pool:")},
         "distinct_transitions(previous class -> observed class)": len(agg.get("sets", {}).get("transitions", [])),
         "K-CACHE": kc,
+        "K-CLOCK": {"histories_run_with_skewed_clocks": c.get("histories", 0),
+                    "clock_readings_by_repository_code (each answered one hour ahead of the previous one)": c.get("K-CLOCK:clock_readings_by_repository_code", 0),
+                    "sites": {k[13:]: v for k, v in c.items() if k.startswith("K-CLOCK:site:")}},
         "sub_claims": {
             "memo entries of a dead graph never answer a lookup": "held on the recycled ids seen" if kc.get("recycled-graph-id-seen", 0) else "not reached (no recycled graph id was seen)",
         },
